@@ -12,7 +12,7 @@ from .. import isotext as T
 from .. import refmodel as R
 from ..regime import TOL
 
-RULE = ("cases = (mode gregorian, TimePoint kwargs [, custom dump format]); "
+RULE = ("cases = (calendar mode, TimePoint kwargs [, custom dump format]); "
         "random valid points over all representations, precision forms "
         "(whole seconds, decimal second/minute/hour of <= 6 digits incl. "
         ".999999/.000001, 24:00), offsets incl. -00:30, years 0, 9999, "
@@ -53,6 +53,8 @@ def install(ctx, repo, probes):
     for rep in gen.REPS:
         for form in ("hms", "hmsf", "hm", "h", "24"):
             ctx.target("default/%s/%s" % (rep, form))
+    for m in R.MODES:
+        ctx.target("mode/" + m)
     ctx.target("expanded-year", "negative-year", "zero-hour-negative-minutes",
                "custom/literal-zone", "custom/placeholder-zone", "custom/Z",
                "custom/basic", "custom/ext", "custom/cross-representation")
@@ -89,7 +91,15 @@ def _fields_close(p, q):
 
 
 def run_case(ctx, repo, case):
+    MODE = case.get("mode", "gregorian")
     repo.set_mode(MODE)
+    try:
+        _run_case(ctx, repo, case, MODE)
+    finally:
+        repo.set_mode("gregorian")
+
+
+def _run_case(ctx, repo, case, MODE):
     p = repo.tp(case["p"])
     n = p._num_expanded_year_digits
     key = R.tp_key(p)
@@ -263,7 +273,7 @@ def make_custom(rng, pkw, pform, off):
                                   "target_off": target}
 
 
-def make_point(rng):
+def make_point(rng, MODE="gregorian"):
     form = rng.choice(("hms", "hms", "hmsf", "hm", "h", "24"))
     rep = rng.choice(gen.REPS)
     v = rng.random()
@@ -296,15 +306,18 @@ def workload(ctx, repo):
     rng = ctx.rng
     n = 18000 if ctx.tier == "quick" else 60000
     for k in range(n):
-        kw, form, off = make_point(rng)
-        case = {"op": "default", "p": kw, "form": form}
+        mode = R.MODES[k % 4] if k % 5 == 0 else "gregorian"
+        kw, form, off = make_point(rng, mode)
+        case = {"op": "default", "p": kw, "form": form, "mode": mode}
+        ctx.cls("mode/" + mode)
         ctx.case = case
         if k % 701 == 0:
             ctx.sample(case)
         run_case(ctx, repo, case)
         if k % 3 != 2:
             fmt, spec = make_custom(rng, kw, form, off)
-            case = {"op": "custom", "p": kw, "fmt": fmt, "spec": spec}
+            case = {"op": "custom", "p": kw, "fmt": fmt, "spec": spec,
+                    "mode": mode}
             ctx.case = case
             if k % 701 == 1:
                 ctx.sample(case)
